@@ -28,7 +28,13 @@ import (
 )
 
 const verifRoot = "/verif"
-const repoRoot = "/repo"
+// repoRoot is /repo; GOSYM_REPO points development runs at a scratch worktree instead
+var repoRoot = func() string {
+	if v := os.Getenv("GOSYM_REPO"); v != "" {
+		return v
+	}
+	return "/repo"
+}()
 const repoModule = "tunnox-core"
 
 type HarnessSpec struct {
